@@ -10,7 +10,7 @@
 //     "directory walk by hand" (see treeRecursive: structural recursion on the entry); results incl.
 //     error; `x := e`, `x = e`, `x, y := f()`, `x += e`, `var x T`, if / else if / else with
 //     optional init statement, in any mix of fall-through / return / continue / break;
-//     `for _, x := range xs`, `for i := 0; i < len(xs); i++` (i used as xs[i] only),
+//     `for _, x := range xs`, `for i, x := range xs`, `for i := 0; i < len(xs); i++` (i used as xs[i] only),
 //     `for s.Scan()` and `for cond && s.Scan()` over a bufio.Scanner; tagless and tagged switch
 //     on strings; closures passed to filepath.WalkDir (directly or through a variable), with the
 //     captured variables they assign as explicit state; named string constants; defer of Close
@@ -65,7 +65,9 @@ func coqType(t typ) string {
 		return "Z"
 	case tError:
 		return "gerror"
-	case tStrs, tPtrStrs, tFile, tScanner:
+	case tFile:
+		return "reader"
+	case tStrs, tPtrStrs, tScanner:
 		return "list string"
 	case tDirent:
 		return "node"
@@ -89,7 +91,9 @@ func zero(t typ) string {
 		return "0%Z"
 	case tError:
 		return "EFail"
-	case tStrs, tPtrStrs, tFile, tScanner, tDirents:
+	case tFile:
+		return `(""%string, ENil)`
+	case tStrs, tPtrStrs, tScanner, tDirents:
 		return "[]"
 	case tDirent:
 		return "dirent_nil"
@@ -154,8 +158,11 @@ type funcInfo struct {
 	calls   map[string]bool
 	// tree recursion: the function calls itself only on the entries os.ReadDir lists for its own
 	// (path, entry) parameter pair — translated as structural recursion on the entry
-	treeRec   bool
-	pathParam string // name of the path parameter
+	// the byte scanner `func(r io.ByteReader) (bool, error)`: not translated; a call of it is the
+	// primitive scan_reader (ProtoLex.scan_go_package), tied to the code by the scan stream
+	opaqueScan bool
+	treeRec    bool
+	pathParam  string // name of the path parameter
 	entParam  string // name of the fs.DirEntry parameter
 }
 
@@ -214,9 +221,15 @@ func (x *xl) typeExpr(e ast.Expr) typ {
 		if isSel(t.X, "bufio", "Scanner") {
 			return tScanner
 		}
+		if isSel(t.X, "bufio", "Reader") {
+			return tFile
+		}
 	case *ast.SelectorExpr:
 		if isSel(t, "fs", "DirEntry") || isSel(t, "os", "DirEntry") || isSel(t, "fs", "FileInfo") || isSel(t, "os", "FileInfo") {
 			return tDirent
+		}
+		if isSel(t, "io", "Reader") || isSel(t, "io", "ByteReader") {
+			return tFile
 		}
 	case *ast.FuncType:
 		return tFunc
@@ -610,6 +623,7 @@ func init() {
 		"os.ReadDir":            {[]typ{tDirents, tError}, func(c *fctx, a []string, _ *ast.CallExpr) string { return "(fs_read_dir W " + a[0] + ")" }},
 		"fs.FileInfoToDirEntry": {[]typ{tDirent}, func(c *fctx, a []string, _ *ast.CallExpr) string { return a[0] }},
 		"bufio.NewScanner":      {[]typ{tScanner}, func(c *fctx, a []string, _ *ast.CallExpr) string { return a[0] }},
+		"bufio.NewReader":       {[]typ{tFile}, func(c *fctx, a []string, _ *ast.CallExpr) string { return a[0] }},
 		"gencommon.PackageNameFromPath": {[]typ{tString, tError}, func(c *fctx, a []string, _ *ast.CallExpr) string {
 			return "(pkg_name_from_path W " + a[0] + ")"
 		}},
@@ -969,6 +983,12 @@ func (c *fctx) call(call *ast.CallExpr) string {
 		if n == "filepath.WalkDir" {
 			return c.walkDir(call)
 		}
+	}
+	if fi := c.calleeOf(call); fi != nil && fi.opaqueScan {
+		if len(call.Args) != 1 {
+			return c.x.bad("call of the byte scanner "+fi.name, call)
+		}
+		return "(scan_reader " + c.expr(call.Args[0]) + ")"
 	}
 	if fi := c.calleeOf(call); fi != nil {
 		if fi.treeRec && fi != c.fi {
@@ -1579,8 +1599,9 @@ func (c *fctx) rangeStmt(t *ast.RangeStmt, rest []ast.Stmt, outs []*varInfo) str
 	if t.Tok != token.DEFINE {
 		return c.x.bad("range without :=", t)
 	}
-	if k, ok := t.Key.(*ast.Ident); !ok || k.Name != "_" {
-		return c.x.bad("range with an index variable", t)
+	kid, ok := t.Key.(*ast.Ident)
+	if !ok {
+		return c.x.bad("range key", t)
 	}
 	vid, ok := t.Value.(*ast.Ident)
 	if !ok {
@@ -1600,6 +1621,16 @@ func (c *fctx) rangeStmt(t *ast.RangeStmt, rest []ast.Stmt, outs []*varInfo) str
 		return c.seq(rest, outs) // range over a slice known to be empty
 	}
 	xs := c.expr(t.X)
+	if kid.Name != "_" {
+		// for i, x := range xs: the elements of enumerate 0 xs
+		if xt != tStrs {
+			return c.x.bad("range with an index over "+string(xt), t)
+		}
+		iv := c.newVar(kid.Obj, kid.Name, tInt)
+		ev := c.newVar(vid.Obj, vid.Name, et)
+		L := c.loopVars(t.Body, nil, rest, outs)
+		return c.loopText("range", "(enumerate 0%Z "+xs+")", "", "'("+iv.name+", "+ev.name+")", t.Body, L, rest, outs)
+	}
 	ev := c.newVar(vid.Obj, vid.Name, et)
 	L := c.loopVars(t.Body, nil, rest, outs)
 	return c.loopText("range", xs, "", ev.name, t.Body, L, rest, outs)
@@ -1802,6 +1833,13 @@ func (x *xl) collect() {
 					}
 				}
 			}
+			if t.Recv == nil && t.Type.Params != nil && len(t.Type.Params.List) == 1 && len(t.Type.Params.List[0].Names) == 1 &&
+				x.typeExpr(t.Type.Params.List[0].Type) == tFile && len(fi.results) == 2 &&
+				fi.results[0] == tBool && fi.results[1] == tError {
+				fi.opaqueScan = true
+				x.funcs[fi.name] = fi
+				continue
+			}
 			ast.Inspect(t, func(m ast.Node) bool {
 				if call, ok := m.(*ast.CallExpr); ok {
 					switch f := call.Fun.(type) {
@@ -1945,7 +1983,7 @@ func (x *xl) order(root string) []*funcInfo {
 	var visit func(n string)
 	visit = func(n string) {
 		fi, ok := x.funcs[n]
-		if !ok || state[n] == 2 {
+		if !ok || state[n] == 2 || fi.opaqueScan {
 			return
 		}
 		if state[n] == 1 {
